@@ -1,5 +1,380 @@
-(* C20_Proofs.v *)
+(* C20_Proofs.v — MigrateColumn leaves a matching column alone; AutoMigrate is idempotent relative
+   to the dialect (environment hypotheses of the Section); extending a model only adds. *)
 From Verif Require Import Base C20_Model.
 Open Scope Z_scope.
+
+(* ------------------------------------------------------------------ *)
+(* string facts *)
+Lemma ascii_eqb_refl : forall a, ascii_eqb a a = true.
+Proof. intro a. unfold ascii_eqb. apply Nat.eqb_refl. Qed.
+Lemma cs_eqb_refl : forall s, cs_eqb s s = true.
+Proof. unfold cs_eqb. induction s as [|c s IH]; cbn; [reflexivity|]. rewrite ascii_eqb_refl, IH. reflexivity. Qed.
+Lemma ascii_eqb_eq : forall a b, ascii_eqb a b = true -> a = b.
+Proof.
+  intros a b H. unfold ascii_eqb in H. apply Nat.eqb_eq in H.
+  rewrite <- (ascii_nat_embedding a), <- (ascii_nat_embedding b), H. reflexivity.
+Qed.
+Lemma cs_eqb_eq : forall a b, cs_eqb a b = true -> a = b.
+Proof.
+  unfold cs_eqb. induction a as [|x a IH]; intros [|y b] H; cbn in H; try discriminate; [reflexivity|].
+  apply andb_prop in H. destruct H as [H1 H2]. apply ascii_eqb_eq in H1. apply IH in H2. congruence.
+Qed.
+Lemma has_prefix_refl : forall s, has_prefix s s = true.
+Proof. induction s as [|c s IH]; cbn; [reflexivity|]. rewrite ascii_eqb_refl, IH. reflexivity. Qed.
+Lemma equal_fold_refl : forall s, equal_fold s s = true.
+Proof. intro s. apply cs_eqb_refl. Qed.
+
 Lemma no_change_ignore : forall f r, f_ignore f = true -> migrate_column f r = no_change.
 Proof. intros f r H. unfold migrate_column. rewrite H. reflexivity. Qed.
+
+Theorem matches_no_change : forall f r, matches f r = true -> migrate_column f r = no_change.
+Proof.
+  intros f r H. unfold matches in H.
+  repeat (apply andb_prop in H; let H' := fresh "M" in destruct H as [H H']).
+  rename H into Mt. rename M into Mu. rename M0 into Mc. rename M1 into Md. rename M2 into Mn.
+  unfold migrate_column. destruct (f_ignore f); [reflexivity|].
+  apply cs_eqb_eq in Mt. rewrite Mt.
+  rewrite has_prefix_refl, cs_eqb_refl. rewrite andb_false_r. cbn [negb].
+  (* nullable *)
+  assert (En : r_nullable_ok r && Bool.eqb (r_nullable r) (f_notnull f) && negb (f_pk f) && negb (r_nullable r) = false).
+  { destruct (r_nullable_ok r); [|reflexivity]. cbn in Mn. destruct (Bool.eqb (r_nullable r) (f_notnull f)); [discriminate|reflexivity]. }
+  rewrite En.
+  (* comment *)
+  assert (Ec : r_comment_ok r && negb (String.eqb (r_comment r) (f_comment f)) && negb (f_pk f) = false).
+  { destruct (r_comment_ok r); [|reflexivity]. cbn in Mc. rewrite Mc. reflexivity. }
+  rewrite Ec.
+  (* unique *)
+  assert (Eu : migrate_column_unique f r = UNone).
+  { unfold migrate_column_unique. destruct (r_unique_ok r); cbn; [|reflexivity].
+    destruct (f_pk f); [reflexivity|]. cbn in Mu. apply Bool.eqb_prop in Mu. rewrite Mu.
+    destruct (f_unique f); reflexivity. }
+  rewrite Eu.
+  (* default *)
+  cbn zeta in Md. apply andb_prop in Md. destruct Md as [Md1 Md2]. apply Bool.eqb_prop in Md1.
+  destruct (f_pk f); [reflexivity|].
+  set (cur := f_hasdef f && (f_defi f || negb (equal_fold (chars (f_default f)) (chars "NULL")))) in *.
+  rewrite Md1. destruct cur; cbn.
+  - cbn in Md2. apply String.eqb_eq in Md2. rewrite Md2.
+    destruct (f_gtype f).
+    + rewrite equal_fold_refl. reflexivity.
+    + rewrite Bool.eqb_reflx. reflexivity.
+    + rewrite cs_eqb_refl. reflexivity.
+  - reflexivity.
+Qed.
+
+(* ------------------------------------------------------------------ *)
+(* association lists *)
+Section Assoc.
+  Context {A : Type}.
+  Lemma lookup_update_same : forall k (v : A) l, lookup k l = Some v -> update k v l = l.
+  Proof.
+    induction l as [|[k' v'] l IH]; intros H; cbn in *; [reflexivity|].
+    destruct (String.eqb k' k); [inversion H; reflexivity | rewrite IH by exact H; reflexivity].
+  Qed.
+  Lemma lookup_update_eq : forall k (v : A) l, lookup k l <> None -> lookup k (update k v l) = Some v.
+  Proof.
+    induction l as [|[k' v'] l IH]; intros H; cbn in *; [contradiction|].
+    destruct (String.eqb k' k) eqn:E; cbn; rewrite E; [reflexivity | apply IH; exact H].
+  Qed.
+  Lemma lookup_update_neq : forall k k' (v : A) l, k <> k' -> lookup k' (update k v l) = lookup k' l.
+  Proof.
+    induction l as [|[k0 v0] l IH]; intros H; cbn; [reflexivity|].
+    destruct (String.eqb k0 k) eqn:E; cbn.
+    - apply String.eqb_eq in E. subst k0. destruct (String.eqb k k') eqn:E2; [apply String.eqb_eq in E2; contradiction | reflexivity].
+    - destruct (String.eqb k0 k'); [reflexivity | apply IH; exact H].
+  Qed.
+  Lemma lookup_app : forall k (l1 l2 : list (string * A)),
+    lookup k (l1 ++ l2) = match lookup k l1 with Some v => Some v | None => lookup k l2 end.
+  Proof.
+    induction l1 as [|[k' v'] l1 IH]; intros l2; cbn; [reflexivity|].
+    destruct (String.eqb k' k); [reflexivity | apply IH].
+  Qed.
+End Assoc.
+
+Lemma nodup_app_parts {A} : forall (a b : list A), NoDup (a ++ b) -> NoDup a /\ NoDup b.
+Proof.
+  induction a as [|x a IH]; intros b H; cbn in *; [split; [constructor | exact H]|].
+  inversion H; subst. destruct (IH b H3) as [Ha Hb]. split; [|exact Hb].
+  constructor; [|exact Ha]. intro Hin. apply H2. apply in_or_app. left. exact Hin.
+Qed.
+
+Lemma mem_app : forall k a b, mem k (a ++ b) = mem k a || mem k b.
+Proof. intros. unfold mem. apply existsb_app. Qed.
+
+(* ------------------------------------------------------------------ *)
+Section Idempotent.
+  Variable coldesc : Type.
+  Variable create : field -> coldesc.
+  Variable set_unique : coldesc -> bool -> coldesc.
+  Variable report : coldesc -> reported.
+
+  (* environment: what the dialect creates for a field is reported as matching it, and a column
+     to which gorm's decision has been applied is reported as matching (tested on every run) *)
+  Hypothesis settle_new : forall f, migrate_column f (report (create f)) = no_change.
+  Hypothesis settle_old : forall f cd,
+    migrate_column f (report (apply_decision coldesc create set_unique report f cd)) = no_change.
+
+  Notation migrate_field := (migrate_field coldesc create set_unique report).
+  Notation migrate_fields := (migrate_fields coldesc create set_unique report).
+  Notation auto_migrate_table := (auto_migrate_table coldesc create set_unique report).
+
+  Definition settled (cols : list (string * coldesc)) (f : field) : Prop :=
+    f_ignore f = true \/
+    exists cd, lookup (f_name f) cols = Some cd /\ migrate_column f (report cd) = no_change.
+
+  Lemma settled_noop : forall tn cols f, settled cols f -> migrate_field tn cols f = ([], cols).
+  Proof.
+    intros tn cols f [Hi|[cd [Hl Hm]]]; unfold C20_Model.migrate_field.
+    - rewrite Hi. reflexivity.
+    - destruct (f_ignore f); [reflexivity|]. rewrite Hl, Hm. cbn.
+      unfold apply_decision. rewrite Hm. cbn. rewrite lookup_update_same by exact Hl. reflexivity.
+  Qed.
+
+  Lemma migrate_field_settles : forall tn cols f, settled (snd (migrate_field tn cols f)) f.
+  Proof.
+    intros tn cols f. unfold C20_Model.migrate_field.
+    destruct (f_ignore f) eqn:Ei; [left; exact Ei|].
+    destruct (lookup (f_name f) cols) as [cd|] eqn:El; cbn [snd].
+    - right. eexists. split; [apply lookup_update_eq; rewrite El; discriminate | apply settle_old].
+    - right. exists (create f). split; [|apply settle_new].
+      rewrite lookup_app, El. cbn. rewrite String.eqb_refl. reflexivity.
+  Qed.
+
+  Lemma migrate_field_keeps : forall tn cols f g,
+    f_name g <> f_name f -> settled cols g -> settled (snd (migrate_field tn cols f)) g.
+  Proof.
+    intros tn cols f g Hn [Hi|[cd [Hl Hm]]]; [left; exact Hi|]. right. exists cd. split; [|exact Hm].
+    unfold C20_Model.migrate_field. destruct (f_ignore f); [exact Hl|].
+    destruct (lookup (f_name f) cols) eqn:El; cbn [snd].
+    - rewrite lookup_update_neq by (intro E; apply Hn; symmetry; exact E). exact Hl.
+    - rewrite lookup_app, Hl. reflexivity.
+  Qed.
+
+  Lemma migrate_fields_snd : forall tn (fs : list field) cols f r,
+    migrate_fields tn cols (f :: r) =
+    (fst (migrate_field tn cols f) ++ fst (migrate_fields tn (snd (migrate_field tn cols f)) r),
+     snd (migrate_fields tn (snd (migrate_field tn cols f)) r)).
+  Proof.
+    intros. cbn [C20_Model.migrate_fields].
+    destruct (migrate_field tn cols f) as [d1 c1]. cbn [fst snd].
+    destruct (migrate_fields tn c1 r) as [d2 c2]. reflexivity.
+  Qed.
+
+  Lemma migrate_fields_keeps : forall tn fs cols g,
+    ~ In (f_name g) (map f_name fs) -> settled cols g -> settled (snd (migrate_fields tn cols fs)) g.
+  Proof.
+    induction fs as [|f r IH]; intros cols g Hn Hs; [exact Hs|].
+    rewrite (migrate_fields_snd tn (f :: r)). cbn [snd]. apply IH.
+    - intro H. apply Hn. right. exact H.
+    - apply migrate_field_keeps; [|exact Hs]. intro E. apply Hn. left. symmetry. exact E.
+  Qed.
+
+  Lemma migrate_fields_settles : forall tn fs cols,
+    NoDup (map f_name fs) -> Forall (settled (snd (migrate_fields tn cols fs))) fs.
+  Proof.
+    induction fs as [|f r IH]; intros cols Hnd; [constructor|].
+    inversion Hnd as [|x l Hx Hl]; subst.
+    rewrite (migrate_fields_snd tn (f :: r)). cbn [snd]. constructor.
+    - apply migrate_fields_keeps; [exact Hx | apply migrate_field_settles].
+    - apply IH. exact Hl.
+  Qed.
+
+  Lemma settled_all_noop : forall tn fs cols,
+    Forall (settled cols) fs -> migrate_fields tn cols fs = ([], cols).
+  Proof.
+    induction fs as [|f r IH]; intros cols H; [reflexivity|]. inversion H; subst.
+    rewrite (migrate_fields_snd tn (f :: r)). rewrite settled_noop by assumption. cbn [fst snd].
+    rewrite IH by assumption. reflexivity.
+  Qed.
+
+  (* constraints and indexes *)
+  Lemma add_missing_spec : forall mk want have,
+    (forall n, mem n have = true -> mem n (snd (add_missing mk have want)) = true)
+    /\ (forall n, In n want -> mem n (snd (add_missing mk have want)) = true).
+  Proof.
+    induction want as [|w r IH]; intros have; cbn; [split; [auto | contradiction]|].
+    destruct (mem w have) eqn:E.
+    - destruct (IH have) as [H1 H2]. split; [exact H1|]. intros n [Hn|Hn]; [subst; apply H1; exact E | apply H2; exact Hn].
+    - destruct (IH (have ++ [w])) as [H1 H2].
+      destruct (add_missing mk (have ++ [w]) r) as [d h] eqn:Ea. cbn [snd] in *.
+      split.
+      + intros n Hn. apply H1. rewrite mem_app, Hn. reflexivity.
+      + intros n [Hn|Hn]; [|apply H2; exact Hn]. subst. apply H1. rewrite mem_app. cbn. rewrite String.eqb_refl.
+        rewrite orb_true_r. reflexivity.
+  Qed.
+
+  Lemma add_missing_noop : forall mk want have,
+    (forall n, In n want -> mem n have = true) -> add_missing mk have want = ([], have).
+  Proof.
+    induction want as [|w r IH]; intros have H; cbn; [reflexivity|].
+    rewrite (H w (or_introl eq_refl)). apply IH. intros n Hn. apply H. right. exact Hn.
+  Qed.
+
+  Lemma lookup_created : forall (fs : list field) f,
+    NoDup (map f_name fs) -> In f fs ->
+    lookup (f_name f) (map (fun f => (f_name f, create f)) fs) = Some (create f).
+  Proof.
+    induction fs as [|g r IH]; intros f Hnd Hin; [contradiction|]. inversion Hnd; subst. cbn.
+    destruct Hin as [E|Hin].
+    - subst. rewrite String.eqb_refl. reflexivity.
+    - destruct (String.eqb (f_name g) (f_name f)) eqn:E; [|apply IH; assumption].
+      apply String.eqb_eq in E. exfalso. apply H1. rewrite E. apply in_map. exact Hin.
+  Qed.
+
+  Lemma nodup_filter_names : forall (p : field -> bool) fs,
+    NoDup (map f_name fs) -> NoDup (map f_name (filter p fs)).
+  Proof.
+    induction fs as [|f r IH]; intros H; [constructor|]. inversion H; subst. cbn.
+    destruct (p f); [|apply IH; assumption]. cbn. constructor; [|apply IH; assumption].
+    intro Hin. apply H2. apply in_map_iff in Hin. destruct Hin as [g [Hg Hin]].
+    apply filter_In in Hin. rewrite <- Hg. apply in_map. tauto.
+  Qed.
+
+  (* AutoMigrate, then AutoMigrate of the same model: the second run issues nothing *)
+  Theorem auto_migrate_idempotent : forall m t,
+    NoDup (map f_name (m_fields m)) ->
+    fst (auto_migrate_table m (Some (snd (auto_migrate_table m t)))) = [].
+  Proof.
+    intros m t Hnd. destruct t as [t|].
+    - (* existing table *)
+      unfold C20_Model.auto_migrate_table at 2.
+      destruct (migrate_fields (m_table m) (t_cols t) (m_fields m)) as [d1 cols] eqn:E1.
+      destruct (add_missing (CreateConstraint (m_table m)) (t_constraints t) (m_constraints m)) as [d2 cns] eqn:E2.
+      destruct (add_missing (CreateIndex (m_table m)) (t_indexes t) (m_indexes m)) as [d3 idxs] eqn:E3.
+      cbn [snd]. unfold C20_Model.auto_migrate_table. cbn [t_cols t_indexes t_constraints].
+      assert (Hs : Forall (settled cols) (m_fields m)).
+      { pose proof (migrate_fields_settles (m_table m) (m_fields m) (t_cols t) Hnd) as H. rewrite E1 in H. exact H. }
+      rewrite (settled_all_noop _ _ _ Hs).
+      rewrite add_missing_noop.
+      2:{ intros n Hn. pose proof (add_missing_spec (CreateConstraint (m_table m)) (m_constraints m) (t_constraints t)) as [_ H].
+          rewrite E2 in H. apply H. exact Hn. }
+      rewrite add_missing_noop.
+      2:{ intros n Hn. pose proof (add_missing_spec (CreateIndex (m_table m)) (m_indexes m) (t_indexes t)) as [_ H].
+          rewrite E3 in H. apply H. exact Hn. }
+      reflexivity.
+    - (* the table was created by the first run *)
+      cbn [C20_Model.auto_migrate_table snd]. unfold C20_Model.auto_migrate_table. cbn [t_cols t_indexes t_constraints].
+      assert (Hs : Forall (settled (map (fun f => (f_name f, create f)) (migratable m))) (m_fields m)).
+      { apply Forall_forall. intros f Hin. destruct (f_ignore f) eqn:Ei; [left; exact Ei|]. right.
+        exists (create f). split; [|apply settle_new].
+        apply lookup_created.
+        - apply nodup_filter_names. exact Hnd.
+        - unfold migratable. apply filter_In. split; [exact Hin | rewrite Ei; reflexivity]. }
+      rewrite (settled_all_noop _ _ _ Hs).
+      rewrite !add_missing_noop; [reflexivity | |].
+      + intros n Hn. unfold mem. apply existsb_exists. exists n. split; [exact Hn | apply String.eqb_refl].
+      + intros n Hn. unfold mem. apply existsb_exists. exists n. split; [exact Hn | apply String.eqb_refl].
+  Qed.
+
+  (* ---- extension: v2 = v1 plus fields, constraints, indexes ---- *)
+  Definition additive (d : ddl) : Prop :=
+    match d with AddColumn _ _ | CreateIndex _ _ | CreateConstraint _ _ => True | _ => False end.
+
+  Lemma add_missing_additive_c : forall t want have,
+    Forall additive (fst (add_missing (CreateConstraint t) have want)).
+  Proof.
+    induction want as [|w r IH]; intros have; cbn; [constructor|].
+    destruct (mem w have); [apply IH|].
+    specialize (IH (have ++ [w])). destruct (add_missing (CreateConstraint t) (have ++ [w]) r). cbn in *.
+    constructor; [exact I | exact IH].
+  Qed.
+  Lemma add_missing_additive_i : forall t want have,
+    Forall additive (fst (add_missing (CreateIndex t) have want)).
+  Proof.
+    induction want as [|w r IH]; intros have; cbn; [constructor|].
+    destruct (mem w have); [apply IH|].
+    specialize (IH (have ++ [w])). destruct (add_missing (CreateIndex t) (have ++ [w]) r). cbn in *.
+    constructor; [exact I | exact IH].
+  Qed.
+
+  (* new fields whose columns do not exist yet are added; nothing else happens to columns *)
+  Lemma migrate_new_fields_additive : forall tn extra cols,
+    NoDup (map f_name extra) ->
+    (forall f, In f extra -> lookup (f_name f) cols = None) ->
+    Forall additive (fst (migrate_fields tn cols extra)).
+  Proof.
+    induction extra as [|f r IH]; intros cols Hnd Hnew; [constructor|].
+    inversion Hnd; subst. rewrite (migrate_fields_snd tn (f :: r)). cbn [fst].
+    apply Forall_app. split.
+    - unfold C20_Model.migrate_field. destruct (f_ignore f); [constructor|].
+      rewrite (Hnew f (or_introl eq_refl)). repeat constructor.
+    - apply IH; [assumption|]. intros g Hg.
+      unfold C20_Model.migrate_field. destruct (f_ignore f); [apply Hnew; right; exact Hg|].
+      rewrite (Hnew f (or_introl eq_refl)). cbn [snd]. rewrite lookup_app, (Hnew g (or_intror Hg)). cbn.
+      destruct (String.eqb (f_name f) (f_name g)) eqn:E; [|reflexivity].
+      apply String.eqb_eq in E. exfalso. apply H1. rewrite E. apply in_map. exact Hg.
+  Qed.
+
+  Lemma migrate_fields_app : forall tn a b cols,
+    fst (migrate_fields tn cols (a ++ b)) =
+    fst (migrate_fields tn cols a) ++ fst (migrate_fields tn (snd (migrate_fields tn cols a)) b).
+  Proof.
+    induction a as [|f r IH]; intros b cols; [reflexivity|].
+    rewrite <- app_comm_cons. rewrite !(migrate_fields_snd tn (f :: r)). cbn [fst snd].
+    rewrite IH, app_assoc. reflexivity.
+  Qed.
+
+  Theorem extend_only_adds : forall m1 t extra xcons xidx,
+    NoDup (map f_name (m_fields m1 ++ extra)) ->
+    let t1 := snd (auto_migrate_table m1 t) in
+    (forall f, In f extra -> lookup (f_name f) (t_cols t1) = None) ->
+    let m2 := mk_model (m_table m1) (m_fields m1 ++ extra) (m_constraints m1 ++ xcons) (m_indexes m1 ++ xidx) in
+    Forall additive (fst (auto_migrate_table m2 (Some t1))).
+  Proof.
+    intros m1 t extra xcons xidx Hnd t1 Hnew m2.
+    assert (Hnd1 : NoDup (map f_name (m_fields m1))).
+    { rewrite map_app in Hnd. apply nodup_app_parts in Hnd. tauto. }
+    assert (Hnd2 : NoDup (map f_name extra)).
+    { rewrite map_app in Hnd. apply nodup_app_parts in Hnd. tauto. }
+    (* the columns of m1 are settled in t1 *)
+    assert (Hs : Forall (settled (t_cols t1)) (m_fields m1)).
+    { unfold t1. destruct t as [t|].
+      - unfold C20_Model.auto_migrate_table.
+        destruct (migrate_fields (m_table m1) (t_cols t) (m_fields m1)) as [d1 cols] eqn:E1.
+        destruct (add_missing (CreateConstraint (m_table m1)) (t_constraints t) (m_constraints m1)) as [d2 cns].
+        destruct (add_missing (CreateIndex (m_table m1)) (t_indexes t) (m_indexes m1)) as [d3 idxs].
+        cbn [snd t_cols].
+        pose proof (migrate_fields_settles (m_table m1) (m_fields m1) (t_cols t) Hnd1) as H. rewrite E1 in H. exact H.
+      - cbn [C20_Model.auto_migrate_table snd t_cols].
+        apply Forall_forall. intros f Hin. destruct (f_ignore f) eqn:Ei; [left; exact Ei|]. right.
+        exists (create f). split; [|apply settle_new].
+        apply lookup_created; [apply nodup_filter_names; exact Hnd1|].
+        unfold migratable. apply filter_In. split; [exact Hin | rewrite Ei; reflexivity]. }
+    unfold C20_Model.auto_migrate_table. cbn [m_table m_fields m_constraints m_indexes m2].
+    destruct (migrate_fields (m_table m1) (t_cols t1) (m_fields m1 ++ extra)) as [d1 cols] eqn:E1.
+    pose proof (add_missing_additive_c (m_table m1) (m_constraints m1 ++ xcons) (t_constraints t1)) as Hc.
+    destruct (add_missing (CreateConstraint (m_table m1)) (t_constraints t1) (m_constraints m1 ++ xcons)) as [d2 cns].
+    pose proof (add_missing_additive_i (m_table m1) (m_indexes m1 ++ xidx) (t_indexes t1)) as Hi.
+    destruct (add_missing (CreateIndex (m_table m1)) (t_indexes t1) (m_indexes m1 ++ xidx)) as [d3 idxs].
+    cbn [fst] in *. apply Forall_app. split; [|apply Forall_app; split; assumption].
+    assert (Ed : d1 = fst (migrate_fields (m_table m1) (t_cols t1) (m_fields m1 ++ extra))) by (rewrite E1; reflexivity).
+    rewrite Ed, migrate_fields_app, (settled_all_noop _ _ _ Hs). cbn [fst snd app].
+    apply migrate_new_fields_additive; assumption.
+  Qed.
+End Idempotent.
+
+(* ------------------------------------------------------------------ *)
+(* data: a table's rows as association lists; what the additive statements do to them *)
+Definition drow := list (string * string).
+Definition exec_additive (d : ddl) (fill : string) (rows : list drow) : list drow :=
+  match d with
+  | AddColumn _ c => map (fun r => r ++ [(c, fill)]) rows     (* every row gets the new cell *)
+  | _ => rows                                                 (* CreateIndex / CreateConstraint *)
+  end.
+
+Theorem additive_preserves_data : forall ds fill rows,
+  length (fold_left (fun rs d => exec_additive d fill rs) ds rows) = length rows
+  /\ forall i c v, lookup c (nth i rows []) = Some v ->
+       lookup c (nth i (fold_left (fun rs d => exec_additive d fill rs) ds rows) []) = Some v.
+Proof.
+  induction ds as [|d ds IH]; intros fill rows; cbn [fold_left]; [split; auto|].
+  destruct (IH fill (exec_additive d fill rows)) as [Hl Hc]. split.
+  - rewrite Hl. destruct d; cbn; try reflexivity. apply map_length.
+  - intros i c v Hv. apply Hc. destruct d; cbn; try exact Hv.
+    destruct (Nat.lt_ge_cases i (length rows)) as [Hi|Hi].
+    + rewrite nth_indep with (d' := (fun r : drow => r ++ [(c0, fill)]) []) by (rewrite map_length; exact Hi).
+      change ([] ++ [(c0, fill)]) with ((fun r : list (string * string) => r ++ [(c0, fill)]) []).
+      rewrite map_nth. unfold drow in *.
+      rewrite lookup_app, Hv. reflexivity.
+    + rewrite nth_overflow in Hv by exact Hi. discriminate.
+Qed.
